@@ -16,6 +16,8 @@ def scen_from_cex(r):
             continue
         if a["op"] == "Create":
             cap = a["cap"]
+        elif a["op"] == "Recreate":
+            ops.append({"op": "Recreate", "n": a["cap"]})
         else:
             ops.append({"op": a["op"], "n": a.get("n", 0)})
     return {"cap": cap, "ops": ops}
@@ -32,6 +34,11 @@ def run(ctx):
     rc = vlib.run_tlc(ctx, "RingBuffer", "RingBufferAsCode.cfg", workers=4)
     if rc.violated:
         scens.append(scen_from_cex(rc))
+    # deviation: Create trusts the pointers it finds in regions a previous writer left behind
+    rk = vlib.run_tlc(ctx, "RingBuffer", "RingBufferKeepsPointers.cfg", workers=4)
+    if not rk.violated:
+        raise vlib.MachineryError("deviation CreateKeepsPointers no longer violates the model's invariants")
+    scens.append(scen_from_cex(rk))
     # 3. behaviours from the spec (simulation) -> scenarios
     nsim = 40 if q else 2000
     rs = vlib.run_tlc(ctx, "RingBufferSim", "RingBufferSim.cfg", workers=1, simulate="num=%d" % nsim, depth=16)
@@ -40,7 +47,7 @@ def run(ctx):
         key = json.dumps(s["ops"][:-1])
         seen.setdefault(key, [])
         if len(seen[key]) < 2:
-            seen[key].append({"cap": s["cap"], "ops": [{"op": o["op"], "n": o.get("n", 0)} for o in s["ops"]]})
+            seen[key].append({"cap": s["cap"], "ops": [{"op": o["op"], "n": o.get("cap", 0) if o["op"] == "Recreate" else o.get("n", 0)} for o in s["ops"]]})
     for v in seen.values():
         scens.extend(v)
     nmodel = len(scens)
@@ -122,6 +129,8 @@ def judge(ctx, events, viols):
                     before += len(p.get("data") or [])
                 elif p["ev"] == "Discard":
                     before = p["rp"]
+                elif p["ev"] == "Recreate":
+                    before = 0
             sig["rewind"] = e["rp"] < before
         vlib.report_violation(ctx, sig, {"cap": s["cap"], "calls": s["events"][:idx + 1]})
 
@@ -143,7 +152,7 @@ def replay(ctx, path):
     with open(path) as f:
         obj = json.load(f)
     calls = obj["replay"]["calls"]
-    ops = [{"op": {"ReadMult": "ReadMult"}.get(c["ev"], c["ev"]), "n": c.get("n", 0)} for c in calls if c["ev"] not in ("Create", "Drain")]
+    ops = [{"op": {"ReadMult": "ReadMult"}.get(c["ev"], c["ev"]), "n": c.get("cap", 0) if c["ev"] == "Recreate" else c.get("n", 0)} for c in calls if c["ev"] not in ("Create", "Drain")]
     sp = ctx.path("scen.json")
     with open(sp, "w") as f:
         json.dump([{"cap": obj["replay"]["cap"], "ops": ops}], f)
